@@ -5,7 +5,6 @@ import json
 import shutil
 import tempfile
 
-from fractions import Fraction
 
 
 def _case(R, docs, d):
@@ -73,6 +72,18 @@ def fresh(cases, position, hash_seed=0, how="worker", **_):
         any_bad = True
         out.append(f"position {position}: output differs from the output of the same command line alone in a fresh interpreter: "
                    + R.first_difference(res[position][2] or b"", alone[0][2] or b""))
+    # the command line at `position`, alone, under several hash seeds
+    if how == "worker":
+      seen = {}
+      for hs in dict.fromkeys([0, 1, 2, 3, 7, 42, int(hash_seed)]):
+        alone, _ = R.run_worker([cs[position]], docs, wd + f"/hs{hs}", hs)
+        if alone is not None:
+          seen.setdefault(alone[0][2], []).append(hs)
+      if len(seen) > 1:
+        any_bad = True
+        out.append(f"position {position} alone in fresh interpreters: {len(seen)} different outputs, by PYTHONHASHSEED: {sorted(seen.values())}")
+      else:
+        out.append(f"position {position} alone in fresh interpreters: same output under PYTHONHASHSEED {sorted(seen.values())}")
     return any_bad, f"PYTHONHASHSEED={hash_seed}\n" + "\n".join(out)
   finally:
     shutil.rmtree(wd, ignore_errors=True)
